@@ -28,6 +28,18 @@ def models_of(build):
     return res
 
 
+def keep_build(build):
+    """The build cache under build/ is shared with the other checks and pruned LRU by directory mtime:
+    refresh ours while a long campaign uses it, and rebuild it if it was evicted meanwhile."""
+    try:
+        os.utime(build.path, None)
+    except OSError:
+        pass
+    if not os.path.exists(build.tool("ovniemu")):
+        return common.repo_build(build.variant)
+    return build
+
+
 def loader_oracle():
     """extracted model + driver; re-extract when the generated OCaml is gone although the .vo is up to date"""
     if not os.path.exists(os.path.join(common.COQ, "loader_x.ml")):
